@@ -20,6 +20,7 @@ var errGetter = errors.New("scripted getter failure")
 
 // scriptGetter: a trusted getter over one chain with a request log and failure injection.
 type scriptGetter struct {
+	softAll bool // GetByHeight serves headers that soft-fail every verification
 	mu       sync.Mutex
 	chain    []*vhdr.Header // index h-1
 	log      []string       // "H:<height>", "R:<from>-<to>", "Head", "HeadT:<trusted>", "G"
@@ -87,6 +88,11 @@ func (g *scriptGetter) GetByHeight(_ context.Context, h uint64) (*vhdr.Header, e
 	}
 	if h == 0 || int(h) > len(g.chain) {
 		return nil, header.ErrNotFound
+	}
+	if g.softAll {
+		// an unhelpful getter: whatever it serves soft-fails every verification, adjacent or not
+		c := g.chain[h-1]
+		return &vhdr.Header{Chain: c.Chain, H: c.H, T: c.T, Prev: c.Prev, Salt: 4, VK: vhdr.VKVerr1}, nil
 	}
 	return g.chain[h-1], nil
 }
